@@ -20,6 +20,11 @@ def _all_finite(value) -> bool:
     try:
         return bool(np.isfinite(value).all())
     except TypeError:
+        # sequences holding numbers next to non-numbers (e.g. ``[nan, None]``) are tested element by element
+        if isinstance(value, (list, tuple)):
+            return all(_all_finite(v) for v in value)
+        if isinstance(value, np.ndarray) and value.dtype == object:
+            return all(_all_finite(v) for v in value.flat)
         return True  # only numeric types can be tested for finiteness, for others it is meaningless
     except ValueError:
         # ragged sequences (e.g. a list of arrays of different lengths) can not be converted to one array
